@@ -3,18 +3,49 @@ import Firefly.Model.AddrSpace
 import Firefly.Proof.Bits
 /-!
 Tie lemmas for C07: the integer expressions and guards that `tools/exprgen` regenerates from the Go
-source on every run are *the same terms* the model is built from. A changed expression in
-`EarlyReserveRegion`, `MapRegion`, `IdentityMapRegion` or `PageFromAddress` changes
-`Gen/C07Expr.lean` and one of these stops checking.
+source on every run denote the terms the model is built from. A changed rounding, mask, shift or
+comparison in `EarlyReserveRegion`, `MapRegion`, `IdentityMapRegion`, `PageFromAddress` or the
+goruntime hooks changes `Gen/C07Expr.lean` and one of these stops checking.
+
+Each lemma is proved by `tie7`: `rfl` when the regenerated term is literally the model's, otherwise
+one arithmetic normal form (`toNat`, masks as `/ 2^k * 2^k`, shifts as `/ 2^k`, comparisons on
+`Nat`) closed by `omega`. So an *equivalent* way of writing the Go expression (`&^ 4095` for
+`& ^(PageSize-1)`, `>> 12` for a mask followed by the shift, `>= x+1` for `> x`) keeps the tie.
 -/
 namespace Firefly.Tie.C07
-open Firefly.AddrSpace Firefly.Gen.C07Expr
+open Firefly.AddrSpace Firefly.Gen.C07Expr Firefly.Bits
+-- `omega` over terms with `% 2^64` recurses deeply on the literal
+set_option maxRecDepth 8000
 
-theorem tie_earlyReserve_wraps (size : W) : earlyReserveWraps size = roundWraps size := rfl
-theorem tie_earlyReserve_round (size : W) : earlyReserveRound size = roundUp size := rfl
-theorem tie_mapRegion_wraps (size : W) : mapRegionWraps size = roundWraps size := rfl
-theorem tie_mapRegion_round (size : W) : mapRegionRound size = roundUp size := rfl
-theorem tie_pageFromAddress (a : W) : pageFromAddress a = pageOf a := rfl
+private theorem kps : BitVec.ofNat 64 Firefly.Gen.C07.pageSize = 4096#64 := by decide
+private theorem ksh : BitVec.ofNat 64 Firefly.Gen.C07.pageShift = 12#64 := by decide
+private theorem kmask : (4096#64 - 1#64 : BitVec 64) = BitVec.ofNat 64 (2^12 - 1) := by decide
+private theorem kmask' : (4096#64 - (1 : BitVec 64)) = BitVec.ofNat 64 (2^12 - 1) := by decide
+private theorem m4095 : (4095#64 : BitVec 64) = BitVec.ofNat 64 (2^12 - 1) := by decide
+private theorem k4095 : (2^12 - 1) % 2^64 = 4095 := by decide
+private theorem e12 : (12#64 : BitVec 64).toNat = 12 := by decide
+private theorem n12 : 12 % 2 ^ 64 = 12 := by decide
+private theorem n4096 : 4096 % 2 ^ 64 = 4096 := by decide
+private theorem psh : Firefly.Gen.C07.pageShift = 12 := by decide
+
+macro "norm7" : tactic => `(tactic| simp only [roundUp, roundWraps, pageOf, pageSizeW, kps, ksh, kmask, kmask', m4095, k4095, e12, n12,
+    n4096, psh, BitVec.ushiftRight_eq', BitVec.shiftLeft_eq', BitVec.toNat_ofNat, BitVec.toNat_ushiftRight,
+    BitVec.toNat_shiftLeft, Nat.shiftLeft_eq, toNat_and_not_lowmask, BitVec.toNat_add, BitVec.toNat_sub, BitVec.toNat_mul,
+    BitVec.toNat_udiv, BitVec.toNat_umod, BitVec.toNat_not, Nat.shiftRight_eq_div_pow, BitVec.lt_def, BitVec.le_def,
+    gt_iff_lt, ge_iff_le, decide_eq_decide])
+macro "tie7" : tactic =>
+  `(tactic| first | with_reducible rfl | (apply BitVec.eq_of_toNat_eq; norm7 <;> omega) | (norm7 <;> omega) | rfl)
+
+theorem tie_earlyReserve_wraps (size : W) : earlyReserveWraps size = roundWraps size := by
+  unfold earlyReserveWraps; tie7
+theorem tie_earlyReserve_round (size : W) : earlyReserveRound size = roundUp size := by
+  unfold earlyReserveRound; tie7
+theorem tie_mapRegion_wraps (size : W) : mapRegionWraps size = roundWraps size := by
+  unfold mapRegionWraps; tie7
+theorem tie_mapRegion_round (size : W) : mapRegionRound size = roundUp size := by
+  unfold mapRegionRound; tie7
+theorem tie_pageFromAddress (a : W) : pageFromAddress a = pageOf a := by
+  unfold pageFromAddress; tie7
 
 /-- `EarlyReserveRegion` as assembled from the regenerated guards and expressions is the model -/
 theorem tie_earlyReserve (cursor size : W) :
@@ -27,69 +58,34 @@ theorem tie_earlyReserve (cursor size : W) :
 
 theorem tie_mapRegion_pageCount (size : W) :
     mapRegionPageCount size = size >>> Firefly.Gen.C07.pageShift := by
-  unfold mapRegionPageCount
-  apply BitVec.eq_of_toNat_eq
-  simp [BitVec.toNat_ushiftRight, Firefly.Gen.C07.pageShift]
+  unfold mapRegionPageCount; tie7
 
 theorem tie_identity_pageCount (size : W) :
     identityPageCount size = roundUp size >>> Firefly.Gen.C07.pageShift := by
-  unfold identityPageCount roundUp pageSizeW
-  apply BitVec.eq_of_toNat_eq
-  simp [BitVec.toNat_ushiftRight, Firefly.Gen.C07.pageShift]
-
-end Firefly.Tie.C07
-
-namespace Firefly.Tie.C07
-open Firefly.AddrSpace Firefly.Gen.C07Expr
+  unfold identityPageCount; tie7
 
 /-! goruntime's `sysReserve` / `sysMap` / `sysAlloc` (clients of the reservation) -/
 
-private theorem pageSizeW_eq' : pageSizeW = 4096#64 := by decide
-
 theorem tie_gort_round (size : W) :
     gortReserveSize size = roundUp size ∧ gortMapSize size = roundUp size ∧ gortAllocSize size = roundUp size := by
-  have h : ∀ s : W, ((s + BitVec.ofNat 64 Firefly.Gen.C07.pageSize) - 1#64) = s + (pageSizeW - 1) := by
-    intro s
-    rw [pageSizeW_eq']
-    have : BitVec.ofNat 64 Firefly.Gen.C07.pageSize = 4096#64 := by decide
-    rw [this]
-    apply BitVec.eq_of_toNat_eq
-    simp [BitVec.toNat_add, BitVec.toNat_sub]
-    omega
-  unfold gortReserveSize gortMapSize gortAllocSize roundUp
-  rw [h]
-  exact ⟨rfl, rfl, rfl⟩
+  unfold gortReserveSize gortMapSize gortAllocSize
+  refine ⟨?_, ?_, ?_⟩ <;> tie7
 
-theorem tie_gort_mapStart (va : W) : gortMapStart va = roundUp va := rfl
+theorem tie_gort_mapStart (va : W) : gortMapStart va = roundUp va := by
+  unfold gortMapStart; tie7
 
 theorem tie_gort_pageCount (s : W) :
     gortMapPageCount s = s >>> Firefly.Gen.C07.pageShift ∧ gortAllocPageCount s = s >>> Firefly.Gen.C07.pageShift := by
   unfold gortMapPageCount gortAllocPageCount
-  constructor <;>
-  · apply BitVec.eq_of_toNat_eq
-    simp [BitVec.toNat_ushiftRight, Firefly.Gen.C07.pageShift]
+  constructor <;> tie7
 
 /-- the overflow guard `regionSize < size` of the three hooks is the model's `roundWraps` -/
 theorem tie_gort_wraps (size : W) :
     gortReserveWraps (roundUp size) size = roundWraps size ∧
     gortMapWraps (roundUp size) size = roundWraps size ∧
     gortAllocWraps (roundUp size) size = roundWraps size := by
-  have key : decide (roundUp size < size) = roundWraps size := by
-    unfold roundWraps roundUp
-    rw [pageSizeW_eq']
-    have hm : (~~~(4096#64 - 1)) = 18446744073709547520#64 := by decide
-    have h1 : (4096#64 - 1 : W) = 4095#64 := by decide
-    rw [Firefly.Bits.and_mask12]
-    rw [hm, h1]
-    have hs := size.isLt
-    rw [decide_eq_decide, BitVec.lt_def, gt_iff_lt, BitVec.lt_def]
-    simp only [BitVec.toNat_shiftLeft, BitVec.toNat_ushiftRight, BitVec.toNat_add, Nat.shiftLeft_eq,
-      Nat.shiftRight_eq_div_pow]
-    have e : (4095#64 : W).toNat = 4095 := by decide
-    have e2 : (18446744073709547520#64 : W).toNat = 18446744073709547520 := by decide
-    rw [e, e2]
-    omega
+  have hs := size.isLt
   unfold gortReserveWraps gortMapWraps gortAllocWraps
-  exact ⟨key, key, key⟩
+  refine ⟨?_, ?_, ?_⟩ <;> tie7
 
 end Firefly.Tie.C07
